@@ -3,6 +3,7 @@ C09 — Version comparison of ontology definitions is a consistent order.
 -/
 import EdxmlModel
 import EdxmlProps.Lemmas.Ont
+import EdxmlProps.Lemmas.OntCmp
 namespace EdxmlProps.C09
 open Edxml.Ont
 
@@ -427,6 +428,90 @@ theorem eq_same_definition_all_kinds :
   ⟨concept_eq_same, objectType_eq_same, assoc_eq_same, relation_eq_same, parent_eq_same, attachment_eq_same,
    prop_eq_same⟩
 
+
+/-! ### whole ontologies (`Ontology.__cmp__`) -/
+
+open EdxmlProps.OntCmp in
+/-- an ontology as `Ontology` objects hold it: one definition per name, event types well-formed -/
+structure OntWF (A : OntologyDef) : Prop where
+  ot : (A.objectTypes.map (·.name)).Nodup
+  c : (A.concepts.map (·.name)).Nodup
+  et : (A.eventTypes.map (·.name)).Nodup
+  s : (A.sources.map (·.name)).Nodup
+  etwf : ∀ e ∈ A.eventTypes, EtWF e
+
+/-- **C09 for whole ontologies: equality is symmetric and an incompatible pair is rejected from both
+sides**: `A == B` and `B == A` give the same answer (equal, different, or the error), whatever the
+two ontologies hold -/
+theorem ontEq_symm (A B : OntologyDef) (hA : OntWF A) (hB : OntWF B) : ontEq A B = ontEq B A := by
+  unfold ontEq
+  rw [EdxmlProps.OntCmp.listsEq_symm (·.name) cmpObjectType A.objectTypes B.objectTypes hA.ot hB.ot
+        (fun a _ b _ => cmpObjectType_antisymm b a),
+      EdxmlProps.OntCmp.listsEq_symm (·.name) cmpConcept A.concepts B.concepts hA.c hB.c
+        (fun a _ b _ => cmpConcept_antisymm b a),
+      EdxmlProps.OntCmp.listsEq_symm (·.name) cmpEventType A.eventTypes B.eventTypes hA.et hB.et
+        (fun a ha b hb => cmpEventType_antisymm b a (hB.etwf b hb) (hA.etwf a ha)),
+      EdxmlProps.OntCmp.listsEq_symm (·.name) cmpSource A.sources B.sources hA.s hB.s
+        (fun a _ b _ => cmpConcept_antisymm b a)]
+
+theorem listsEq_refl {α} (key : α → String) (cmp : α → α → Cmp) (A : List α) (hA : (A.map key).Nodup)
+    (hrefl : ∀ a ∈ A, cmp a a = .eq) : listsEq key cmp A A = .equal := by
+  apply (EdxmlProps.OntCmp.listsEq_spec key cmp A A hA).2.mpr
+  refine ⟨?_, keysEq_self _, ?_⟩
+  · rintro ⟨a, ha, b, hb, hk, hc⟩
+    have := nodup_key_inj key A hA b hb a ha hk
+    subst this
+    rw [hrefl b hb] at hc
+    cases hc
+  · intro a ha b hb hk
+    have := nodup_key_inj key A hA b hb a ha hk
+    subst this
+    exact hrefl b hb
+
+/-- every ontology equals itself -/
+theorem ontEq_refl (A : OntologyDef) (hA : OntWF A) : ontEq A A = .equal := by
+  unfold ontEq
+  rw [listsEq_refl (·.name) cmpObjectType _ hA.ot (fun a _ => cmpObjectType_refl a),
+      listsEq_refl (·.name) cmpConcept _ hA.c (fun a _ => cmpConcept_refl a),
+      listsEq_refl (·.name) cmpEventType _ hA.et (fun a ha => cmpEventType_refl a (hA.etwf a ha)),
+      listsEq_refl (·.name) cmpSource _ hA.s (fun a _ => cmpConcept_refl a)]
+  rfl
+
+/-- `and` of the four kinds is equal only when all four are -/
+theorem and_equal (x y : OntEq) : x.and y = .equal ↔ x = .equal ∧ y = .equal := by
+  cases x <;> cases y <;> simp [OntEq.and]
+
+/-- ontologies that compare equal hold the same object types, concepts and sources (hence serialize
+these identically: the serialisation lists the definitions sorted by name) -/
+theorem ontEq_equal_same (A B : OntologyDef) (hA : OntWF A) (hB : OntWF B) (h : ontEq A B = .equal) :
+    (∀ a, a ∈ A.objectTypes ↔ a ∈ B.objectTypes) ∧ (∀ a, a ∈ A.concepts ↔ a ∈ B.concepts) ∧
+    (∀ a, a ∈ A.sources ↔ a ∈ B.sources) := by
+  unfold ontEq at h
+  obtain ⟨h123, h4⟩ := (and_equal _ _).mp h
+  obtain ⟨h12, _⟩ := (and_equal _ _).mp h123
+  obtain ⟨h1, h2⟩ := (and_equal _ _).mp h12
+  have key : ∀ {α} (key : α → String) (cmp : α → α → Cmp) (X Y : List α) (_ : (X.map key).Nodup) (hY : (Y.map key).Nodup)
+      (_ : ∀ a b : α, key a = key b → cmp a b = .eq → a = b) (_ : ∀ a b : α, cmp b a = (cmp a b).flip),
+      listsEq key cmp X Y = .equal → ∀ a, a ∈ X ↔ a ∈ Y := by
+    intro α key cmp X Y _ hY hsame hflip heq a
+    obtain ⟨_, hk, hall⟩ := (EdxmlProps.OntCmp.listsEq_spec key cmp X Y hY).2.mp heq
+    unfold keysEq at hk
+    simp only [Bool.and_eq_true] at hk
+    constructor
+    · intro ha
+      have : key a ∈ Y.map key := keysSubset_mem hk.1 _ (List.mem_map_of_mem ha)
+      obtain ⟨b, hb, hkb⟩ := List.mem_map.mp this
+      have := hsame b a hkb (hall a ha b hb hkb)
+      rw [← this]; exact hb
+    · intro ha
+      have : key a ∈ X.map key := keysSubset_mem hk.2 _ (List.mem_map_of_mem ha)
+      obtain ⟨b, hb, hkb⟩ := List.mem_map.mp this
+      have h1 := hall b hb a ha hkb.symm
+      have := hsame a b hkb.symm h1
+      rw [this]; exact hb
+  exact ⟨key _ _ _ _ hA.ot hB.ot objectType_eq_same (fun a b => cmpObjectType_antisymm a b) h1,
+    key _ _ _ _ hA.c hB.c concept_eq_same (fun a b => cmpConcept_antisymm a b) h2,
+    key _ _ _ _ hA.s hB.s concept_eq_same (fun a b => cmpConcept_antisymm a b) h4⟩
 
 /-! ### accepted upgrades compose -/
 
